@@ -424,6 +424,10 @@ class CExec:
         elif k == 'seg':
             self.bounds(st, 'segments[i]', z3.And(loc[1] >= 0, loc[1] < st.M['f:segment_count']))
             yield (st, z3.Select(st.M['seg_' + loc[2]], loc[1]))
+        elif k == 'segelem':
+            # a whole SegmentRange read (struct copy): both fields
+            self.bounds(st, 'segments[i]', z3.And(loc[1] >= 0, loc[1] < st.M['f:segment_count']))
+            yield (st, ('SegmentRange', z3.Select(st.M['seg_start'], loc[1]), z3.Select(st.M['seg_end'], loc[1])))
         elif k == 'ring':
             self.bounds(st, 'last_ops_ring[i]', z3.ULT(loc[1], self.ring_len(st)))
             yield (st, z3.Select(st.M['ring'], loc[1]))
@@ -499,6 +503,12 @@ class CExec:
         elif k == 'seg':
             self.bounds(st, 'segments[i]', z3.And(loc[1] >= 0, loc[1] < st.M['f:segment_capacity']))
             s.M['seg_' + loc[2]] = z3.Store(s.M['seg_' + loc[2]], loc[1], val)
+        elif k == 'segelem':
+            if not (isinstance(val, tuple) and val and val[0] == 'SegmentRange'):
+                raise Undecided('store of a non-SegmentRange value into segments[i]')
+            self.bounds(st, 'segments[i]', z3.And(loc[1] >= 0, loc[1] < st.M['f:segment_capacity']))
+            s.M['seg_start'] = z3.Store(s.M['seg_start'], loc[1], val[1])
+            s.M['seg_end'] = z3.Store(s.M['seg_end'], loc[1], val[2])
         elif k == 'ring':
             self.bounds(st, 'last_ops_ring[i]', z3.ULT(loc[1], self.ring_len(st)))
             s.M['ring'] = z3.Store(s.M['ring'], loc[1], val)
